@@ -26,7 +26,7 @@ CHECKS.update({
    note='Clock is monotone; deadline positions and lifecycle histories are sampled, cut points are enumerated per sampled proof (n<=60).'),
  'C01': dict(engine='proofsim', level='exploration', ref='DESIGN.md §6 C01',
    technique='deterministic simulation: seeded search over arguments x logics x option combinations x drive modes x tie-break schedules; oracle = bounded countermodel search in an independent reference semantics plus cross-schedule witnesses (models the prover produced on another schedule, re-evaluated by the reference); witness-aware root-cause diagnosis',
-   text='Every explored run that completes with all branches closed is confronted with (a) R1\'s bounded countermodel search (exact truth tables on the propositional fragment; frames <=2 worlds exhaustive, 3 sampled; argument constants +1) and (b) models produced by the prover itself for the same argument under other schedules/options, re-verified by R1. An alarm needs a re-verified countermodel. Arguments, schedules and options are sampled; countermodels beyond the bounds are missed.',
+   text='Every explored run that completes with all branches closed is confronted with (a) R1\'s bounded countermodel search (exact truth tables on the propositional fragment; frames <=2 worlds exhaustive, 3 sampled; argument constants +1) and (b) models produced by the prover itself for the same argument under other schedules/options, re-verified by R1. An alarm needs a re-verified countermodel. Every 3rd run sweeps a systematic enumeration (every quantifier node shape in 23 small first-order contexts, one logic per rule-implementation group in quick / every quantified logic in thorough) and a propositional scale sweep (1..20 copies of one letter against n-1/n/n+1 distinct letters, invalid by construction). Otherwise arguments, schedules and options are sampled; countermodels beyond the bounds are missed.',
    note='Trusts R1 (cross-examined against the library evaluator by C08 on every logic: they agree everywhere except the recorded FDE-family discrepancy); per-world classical identity.'),
  'C02': dict(engine='proofsim', level='exploration', ref='DESIGN.md §6 C02',
    technique='deterministic simulation: seeded search over arguments x logics x options x tie-break schedules; every open limit-free branch of every completed tableau is judged by the library\'s own model builder and evaluator (node-by-node satisfaction, access pairs, countermodel test), with R1 consulted only to attribute FDE-family failures to the evaluator',
@@ -38,11 +38,11 @@ CHECKS.update({
    note='Trusts R1; a disagreement is localised to the innermost clause and adjudicated against doc/logics before being listed.'),
  'C09': dict(engine='proofsim', level='exploration', ref='DESIGN.md §6 C09',
    technique='deterministic simulation: families of independently scheduled runs of one argument (8 lexical-hash salts in fresh interpreters x option combinations x drive modes x seeded tie-break orders x premise permutations/duplications), verdict classes compared within and across workers over the recorded history; drive modes compared under one schedule',
-   text='Each sampled (logic, argument) is proved under every lexical salt and, per salt, several configurations from {group optim} x {rank optim} x {build, step loop, stepiter} x tie-break seeds x premise orders/duplications. Alarm iff a family holds both a valid and a refuted outcome, a member raises, or the three drive modes differ under one schedule. Limit-only outcomes are excluded as stated.',
+   text='Each sampled (logic, argument) is proved under every lexical salt and, per salt, several configurations from {group optim} x {rank optim} x {build, step loop, stepiter} x tie-break seeds x premise orders/duplications. Alarm iff a family holds both a valid and a refuted outcome, a member raises, or the three drive modes differ under one schedule. Premise arrangements (original, reversed, rotated, duplicated: one premise rotating with the salt, or every premise twice) are systematic per run. Limit-only outcomes are excluded as stated.',
    note='A valid/refuted pair cannot both be right, so the alarm is never spurious; R1 is used only to name the side and rule at fault.'),
  'C10': dict(engine='proofsim', level='exploration', ref='DESIGN.md §6 C10',
    technique='deterministic simulation: families of independently scheduled runs of related arguments (conclusion-among-premises, added premise, injective renamings of letters/constants/predicates/bound variables), laws checked over the recorded outcomes',
-   text='For sampled base arguments in all logics (propositional, modal, first-order with identity): reflexivity (never refuted, valid when a verdict is reached), monotonicity (base valid => extended never refuted) and renaming invariance (never valid on one side and refuted on the other), each member under 2 independent seeded configurations.',
+   text='For sampled base arguments in all logics (propositional, modal, first-order with identity): reflexivity (never refuted, valid when a verdict is reached), monotonicity (base valid => extended never refuted) and renaming invariance (never valid on one side and refuted on the other), each member under 2 independent seeded configurations; half of the runs also add 3-8 premises at once that repeat one subformula of the argument.',
    note='Limit-only outcomes never compared; R1 only attributes blame.'),
  'C11': dict(engine='proofsim', level='exploration', ref='DESIGN.md §6 C11',
    technique='deterministic simulation: pairs of independently scheduled runs of one argument in a declared (weaker, stronger) logic pair read from the registry, floor share per declared pair plus sampled transitive pairs',
@@ -50,7 +50,7 @@ CHECKS.update({
    note='Arguments are sampled and biased to ones the weaker logic proves (mutated library examples).'),
  'C05': dict(engine='branchsim+proofsim', level='exploration', ref='DESIGN.md §6 C05',
    technique='deterministic simulation: seeded arrival histories of literal constraint nodes on a rule-only tableau (orders, forks between arrivals, duplicate nodes, seeded hash order) judged by satisfiability in an independent reference semantics; closure-event monitor on whole proofs',
-   text='Seeded subsets of the literal constraints over one letter / predication / opaque sentence (and identity / existence literals in the classical family) arrive in seeded orders, sometimes split across a fork, in every logic; closed <=> R1 finds no satisfying value, and the model read off an open set must satisfy it. In whole proofs every closure event must be on an R1-unsatisfiable target and completed open branches must carry satisfiable literals. The literal space is small and covered many times over, but arrival orders and proofs are sampled.',
+   text='Seeded subsets of the literal constraints over one letter / predication / opaque sentence (and identity / existence literals in the classical family) arrive in seeded orders, sometimes split across a fork, in every logic; closed <=> R1 finds no satisfying value, and the model read off an open set must satisfy it. In whole proofs every closure event must be on an R1-unsatisfiable target and completed open branches must carry satisfiable literals. The (base sentence x subset of literal constraints at one world) space of every logic is enumerated completely by one quick batch; arrival orders, forks, interleaved step() calls, padding and proofs are sampled.',
    note='Forks are only generated from branches that cannot already close (a closable branch is never expanded by the prover); a 60-step limit bounds the serial rule on trunk-less tableaux.'),
  'C06': dict(engine='branchsim+proofsim', level='exploration', ref='DESIGN.md §6 C06',
    technique='deterministic simulation: seeded append / access / copy / fork histories on Branch judged after every operation by the symbols actually occurring on each live branch (R5); step monitor on whole proofs for witness-introducing rules',
@@ -58,19 +58,19 @@ CHECKS.update({
    note='Longer histories and proofs are sampled.'),
  'C13': dict(engine='parsesim', level='exploration', ref='DESIGN.md §6 C13',
    technique='deterministic simulation: seeded parse histories on long-lived parsers with input faults (truncate, flip, insert, foreign characters, delete, duplicate span, stray parenthesis, swapped variable) and sliced exhaustive short strings; per-parse oracle = exception type, deterministic trace-event budget, structural well-formedness walker, fresh twin parser with the prior declarations',
-   text='Long-lived Polish and standard parsers (auto_preds, drop_parens, empty / declared / frozen stores) receive histories of valid, fault-mutated, random and exhaustively short inputs; each parse must return a closed, non-vacuous, arity-correct sentence or raise ParseError within a deterministic event budget, and must equal the result of a fresh twin parser carrying the declarations as they were before the call. Inputs and histories are sampled (strings <= 3 characters are enumerated across the runs of a batch).',
+   text='Long-lived Polish and standard parsers (auto_preds, drop_parens, empty / declared / frozen stores) receive histories of valid, fault-mutated, random and exhaustively short inputs; each parse must return a closed, non-vacuous, arity-correct sentence or raise ParseError within a deterministic event budget, and must equal the result of a fresh twin parser carrying the declarations as they were before the call. Fault kinds include end of input at every instant (all proper prefixes of a short input), very deep nesting swept finely around the interpreter recursion limit, very long subscripts, and inputs composed from earlier inputs of the same history. Inputs and histories are sampled (strings <= 3 characters are enumerated across the runs of a batch).',
    note='The twin defines history-independence exactly as the statement does (same string, same declarations).'),
  'C14': dict(engine='lexsim', level='exploration', ref='DESIGN.md §6 C14',
    technique='deterministic simulation: seeded construction / rebuild / copy / pickle / comparison / mutation-attempt histories under per-run cache sizes with eviction faults, judged against structural tuples and against a fault-free twin execution (large cache) of the same history',
-   text='Histories of 30-160 operations over all nine lexical types and Argument (system predicates over-represented; open, vacuous and re-bound quantified items included) run under cache sizes 1..1000 with eviction faults placed at random and between taking an ident/spec and rebuilding from it; equality <=> structural identity, hash, one total order with type rank first, rebuild/copy/pickle equality and immutability are checked per operation, and the whole observation log must equal that of the large-cache twin.',
+   text='Histories of 30-160 operations over all nine lexical types and Argument (system predicates over-represented; open, vacuous and re-bound quantified items included) run under cache sizes 1..1000 with eviction faults placed at random and between taking an ident/spec and rebuilding from it; equality <=> structural identity, hash, one total order with type rank first, rebuild/copy/pickle equality (an argument's second construction carries a title) and immutability are checked per operation, an exception escaping from library code during an operation the model takes to be valid is a violation, and the whole observation log must equal that of the large-cache twin.',
    note='Cache size 0 is unsupported by the package (import fails) and not judged.'),
  'C19': dict(engine='proofsim', level='exploration', ref='DESIGN.md §6 C19',
-   technique='deterministic simulation supplies the population: tableaux finished under seeded schedules and cut short at seeded step limits; every registered format x notation x seeded writer options rendered twice; the text rendering is parsed back and compared token by token with the branches',
-   text='Rendering is a pure function of a finished tableau; the simulation supplies the population the property quantifies over (completed valid/invalid tableaux and tableaux cut short at seeded step limits, with access, quit-flag and closure nodes in every logic family). For each: all formats x notations x writer options render without raising, twice identically; the text output is read back into structures whose root-to-leaf token lists must equal the branch tokens, with exactly one closure mark on closed branches.',
+   technique='deterministic simulation supplies the population: tableaux finished under seeded schedules and cut short at seeded step limits; long-lived writers for every registered format x notation x seeded options are all constructed first and render in seeded interleavings, again after a virtual wall-clock jump, and are compared with fresh writers; the text rendering is parsed back and compared token by token with the branches',
+   text='Rendering is a pure function of a finished tableau; the simulation supplies the population the property quantifies over (completed valid/invalid tableaux and tableaux cut short at seeded step limits, with access, quit-flag and closure nodes in every logic family). For each: all formats x notations x writer options (class options as tuple, list, set or string) render without raising, identically by a long-lived writer (before and after other writers were constructed and a wall-clock jump) and by a fresh one; the text output is read back into structures whose root-to-leaf token lists must equal the branch tokens, with exactly one closure mark on closed branches.',
    note='The written form of a sentence is taken from the writer\'s own LexWriter (C12 territory); sampling only.'),
  'C20': dict(engine='modelsim+proofsim', level='exploration', ref='DESIGN.md §6 C20',
    technique='deterministic simulation: models produced by seeded model-API call histories and by open branches of seeded proof runs; the exported description is compared entry by entry with the model\'s own evaluator',
-   text='For models built by seeded API histories (insertion orders, repeated facts) and models read from open branches of seeded proof runs, in all logics: exported worlds and access pairs equal the model\'s, every listed letter/opaque value equals value_of at that world and every known one is listed, extension membership <=> T/B, anti-extension membership => F/B (and <= for explicitly interpreted tuples), two calls equal, sequences sorted.',
+   text='For models built by seeded API histories (insertion orders, repeated facts, an export preview before finish(), conflicting calls that the model refuses while the caller carries on) and models read from open branches of seeded proof runs, in all logics: exported worlds and access pairs equal the model\'s, every listed letter/opaque value equals value_of at that world and every known one is listed, extension membership <=> T/B, anti-extension membership => F/B (and <= for explicitly interpreted tuples), two calls equal, sequences sorted.',
    note='Anti-extension exactness is demanded for explicitly interpreted tuples only (see evidence assumptions).'),
 })
 
